@@ -88,6 +88,9 @@ def cases(tier, seed):
                 for l3 in per3:
                     yield {"op": "concat1", "ops": [list(l1), list(l2), list(l3)], "axis": -1}
                 yield {"op": "concat1", "ops": [list(l1), list(l2)], "axis": 1}
+                # operands of different element types: the joined rows hold the values of every operand (numpy's common type)
+                for dts in (["int64", "float64"], ["bool", "int64"], ["int32", "int64"], ["float64", "int64"], ["uint8", "int64"]):
+                    yield {"op": "concat1", "ops": [list(l1), list(l2)], "axis": -1, "dtypes": dts}
                 yield {"op": "concat1", "ops": [list(l1)], "axis": -1}
     # ---- *_like, padded matrix
     for lengths in shapes:
@@ -224,6 +227,21 @@ def _ragged_result(res, exp_rows, desc, what, rtol=0.0):
     return None
 
 
+def _typed(rows, dt, k):
+    """values that only the operand's own element type can hold (used when the operands' types differ): halves for floats, values beyond 32 bits
+    or negative ones for a 64-bit operand that follows a narrower one, truth values for bool"""
+    d = np.dtype(dt)
+    if d.kind == "f":
+        return [[v + 0.5 for v in r] for r in rows]
+    if d.kind == "b":
+        return [[bool(v % 2) for v in r] for r in rows]
+    if d == np.int64 and k > 0:
+        return [[(v + 2 ** 40) if (v % 2) else -v for v in r] for r in rows]
+    if d.itemsize == 1:
+        return [[v % 100 for v in r] for r in rows]
+    return rows
+
+
 def _raised(desc, exp, e, what):
     return {"msg": f"{desc}: expected {short(exp)}, raised {type(e).__name__}: {e}", "what": f"raised:{type(e).__name__}:{what}"}
 
@@ -235,6 +253,8 @@ def _check(case):
         ops = case["ops"]
         dts = case.get("dtypes") or ["int64"] * len(ops)
         rows_k = [rows_for(l, base=100 * k + 1) for k, l in enumerate(ops)]
+        if case.get("dtypes"):
+            rows_k = [_typed(r, dt, k) for k, (r, dt) in enumerate(zip(rows_k, dts))]
         arrays = [mk(r, dt) for r, dt in zip(rows_k, dts)]
         if op == "concat0":
             exp = [r for rows in rows_k for r in rows]
